@@ -92,3 +92,12 @@ Theorem C14_whole_step_contains_row : forall (e : Env (F:=R)) times speeds fmax 
     consist_solve c2 (w_pwr_whl_out (ts_w st')) (t_i - t_p) true = Ok c' /\
     consist_sim_solve_step c (w_pwr_whl_out (ts_w st')) (t_i - t_p) = Ok c'.
 Proof. exact ss_full_step_decomposes. Qed.
+
+(* after n + 1 whole steps from counter i0 the state shows sample i0 + n of the trace (time and speed), whatever
+   the consist did on the way *)
+Theorem C14_whole_run_follows_trace : forall (e : Env (F:=R)) times speeds fmax n x x',
+  ss_full_run (S n) e times speeds fmax x = Ok x' ->
+  let i := (k_i (ts_k (fst (fst x))) + n)%nat in
+  k_time (ts_k (fst (fst x'))) = nthR times i /\ k_speed (ts_k (fst (fst x'))) = nthR speeds i /\
+  k_i (ts_k (fst (fst x'))) = S i.
+Proof. exact ss_full_run_follows_trace. Qed.
